@@ -31,6 +31,12 @@ CLAIMED = {
             "half-finished failing calls are symbolic: the last operation equals the same operation on a fresh pool for ALL points. Known finding D3."),
     "C10": ("6/C10", "After every history of the bounded alphabet each operand still equals, prints, hashes and (for ALL points) evaluates like its fresh twin; "
             "list helpers against their specification for an arbitrary integer index; Point against later dict mutation."),
+    "C12": ("6/C12", "a == b <=> structural specification for ALL parameter values (n, base, constants, coordinates symbolic; classes/arity/order enumerated), "
+            "symmetry/reflexivity/transitivity on the same path, equal => equal hash with hash() as an uninterpreted function (congruence), foreign "
+            "comparands never raise; real sets/dicts in the concrete replay."),
+    "C13": ("6/C13", "Printed text evaluated back (tokens for symbolic numbers in scope) equals the original for ALL parameter values; equal text => equal objects "
+            "for pairs printed in the same process (hash-keyed memo = fork on an uninterpreted hash collision, replayed with CPython's real collisions); "
+            "str == repr; real number formatting by one concrete replay per obligation."),
     "C14": ("6/C14", "Coordinate values symbolic, supplied-variable subsets/extra coordinates/routes enumerated: CoordinateMissing never with all variables "
             "supplied, never a number with a variable missing (also with warm caches), bare number/Derivative accepted exactly for <=1 variable; names by "
             "a regular-language lemma (z3 strings) on the real constructor, executed with a symbolic str subclass."),
